@@ -76,6 +76,9 @@ unsafe impl<T: 'static> LocalRef<T> for PtrLocalRef<T> {
         // the event, so we clear its diagnostic state before we let go of it.
         #[cfg(debug_assertions)]
         LocalEvent::clear_awaiter_backtrace(self);
+
+        #[cfg(folo_verif)]
+        crate::verif::notify_release(self.event.as_ptr() as usize);
     }
 }
 
@@ -159,6 +162,9 @@ unsafe impl<T: 'static> LocalRef<T> for BoxedLocalRef<T> {
         unsafe {
             dealloc(self.event.as_ptr().cast(), Self::layout());
         }
+
+        #[cfg(folo_verif)]
+        crate::verif::notify_release(self.event.as_ptr() as usize);
     }
 }
 
